@@ -1,5 +1,8 @@
 """C08 — see checks/connfamily.py (shared engine of the connection family) and coq/Properties/C08.v."""
+import asyncio
+
 from checks import connfamily
+from vlib import common
 
 VFILE = "Properties/C08.v"
 RULE = ("stories = hand-picked same-turn/close-window scenarios + (thorough) every position x every single extra event of base stories "
@@ -131,8 +134,66 @@ def resolve_close_probe(n_addresses, how):
     return simnet.run(go)
 
 
+def closed_delivery_sweep(debug, how):
+    """An established plaintext session with a subscriber on EVERY message type the device may send; then the closing event with
+    one frame of every type right behind it in the same read (and once more in a later read).  Nothing that follows the closing
+    frame may reach a subscriber.  Returns (types delivered after the close, state closed)."""
+    from vlib import simnet
+
+    async def go(loop):
+        from aioesphomeapi.connection import APIConnection, ConnectionParams, ConnectionState as S
+        from aioesphomeapi.core import MESSAGE_TYPE_TO_PROTO
+        from aioesphomeapi.zeroconf import ZeroconfManager
+        net = simnet.Net(loop)
+        params = ConnectionParams(addresses=["10.0.0.1"], port=6053, password=None, client_info="v", keepalive=20.0,
+                                  zeroconf_manager=ZeroconfManager(), noise_psk=None, expected_name=None)
+        stops = []
+        conn = APIConnection(params, lambda e: stops.append(e), debug, None)
+        seen = []
+        with net.patched():
+            await conn.start_connection()
+            task = asyncio.ensure_future(conn.finish_connection(login=False))
+            await simnet.drain(loop)
+            tr = net.transports[-1]
+            tr.feed(simnet.plain_frame(2, b"\x08\x01\x10\x0a"))           # HelloResponse 1.10
+            await simnet.drain(loop)
+            await task
+            for ty, cls in MESSAGE_TYPE_TO_PROTO.items():
+                if ty not in (5, 7, 36):      # the connection answers these three itself
+                    conn.add_message_callback(lambda m, ty=ty: seen.append(ty), (cls,))
+            every = b"".join(simnet.plain_frame(ty) for ty in sorted(MESSAGE_TYPE_TO_PROTO) if ty not in (2, 5, 6, 7, 8, 36, 37))
+            if how == "disconnect-request":
+                tr.feed(simnet.plain_frame(26) + simnet.plain_frame(5) + every)
+            else:
+                tr.feed(simnet.plain_frame(26) + b"\x42" + every)             # a byte that cannot start a frame: protocol error
+            await simnet.drain(loop)
+            before = list(seen)
+            try:
+                tr.feed(every)
+            except Exception:  # noqa: BLE001
+                pass
+            await simnet.drain(loop)
+            closed = conn.connection_state is S.CLOSED
+            conn.force_disconnect()
+            await simnet.drain(loop)
+        return [t for t in seen if t != 26] + ([] if seen[:1] == [26] else ["first frame not delivered"]), closed, len(stops)
+    return simnet.run(go)
+
+
 def run(rep, tier, seed):
     connfamily.run(rep, tier, seed, "C08", VFILE, RULE)
+    for debug in (False, True):
+        for how in ("disconnect-request", "bad-preamble"):
+            with common.debug_logging(debug):
+                late, closed, nstops = closed_delivery_sweep(debug, how)
+            replay = {"kind": "closed-delivery-sweep", "debug": debug, "how": how}
+            rep.case(("closed-delivery-sweep", debug, how), True, sample={"probe": replay, "delivered_after_close": late[:6], "closed": closed})
+            rep.bump("probe:closed-delivery-sweep")
+            if not closed:
+                rep.violation("C08/not-closed", f"established session, {how} in a read: the connection is not CLOSED afterwards", replay)
+            elif late:
+                rep.violation("C08/delivery-after-close", f"established session with a subscriber on every message type, {how} followed in the same read by one frame of "
+                              f"every type (debug logging {'on' if debug else 'off'}): message type(s) {late[:8]} were still delivered after the closing event", replay)
     for noise, stage in ((True, "hello"), (True, "handshake"), (False, "hello")):
         for exc_kind in ("reset", "timedout", "pipe", "none"):
             out, closed, timers = handshake_loss_probe(noise, stage, exc_kind)
